@@ -150,3 +150,464 @@ def all_invariants(mm: mmg.MetaModel) -> List[Tuple[str, mmg.Invariant]]:
     for c in mm.classes:
         out += [(c.name, i) for i in c.invariants]
     return out
+
+
+# ----------------------------------------------------------------------------------------
+# Naming (copies of aas_core_codegen.naming as used by python/java/cpp naming; if the
+# generators rename, the drivers stop compiling, which the check reports)
+# ----------------------------------------------------------------------------------------
+def _parts(name: str) -> List[str]:
+    return [p for p in name.split("_") if p != ""]
+
+
+def cap_camel(name: str) -> str:
+    return "".join(p.capitalize() for p in _parts(name))
+
+
+def low_camel(name: str) -> str:
+    ps = _parts(name)
+    return ps[0].lower() + "".join(p.capitalize() for p in ps[1:])
+
+
+def upper_snake(name: str) -> str:
+    return "_".join(p.upper() for p in _parts(name))
+
+
+def lower_snake(name: str) -> str:
+    return "_".join(p.lower() for p in _parts(name))
+
+
+# ----------------------------------------------------------------------------------------
+# Neutral instance description
+#   value ::= None | bool | int | {"float": x} | str | {"bytes": hex} | {"enum": E, "lit": L}
+#           | [value, ...] | {"class": C, "fields": {prop: value}}
+# ----------------------------------------------------------------------------------------
+def _constants_in(mm: mmg.MetaModel) -> Tuple[List[int], List[float], List[str]]:
+    ints, floats, strs = set(), set(), set()
+    for _, inv in all_invariants(mm):
+        for e in mmg.walk_expr(inv.body):
+            if isinstance(e, Const):
+                v = e.value
+                if isinstance(v, bool):
+                    continue
+                if isinstance(v, int):
+                    ints.add(v)
+                elif isinstance(v, float):
+                    floats.add(v)
+                elif isinstance(v, str):
+                    strs.add(v)
+    for c in mm.constants:
+        if isinstance(c, mmg.ConstantSet):
+            for v in c.values:
+                if c.items_type == "int":
+                    ints.add(v)
+                elif c.items_type == "str":
+                    strs.add(v)
+    return sorted(ints), sorted(floats), sorted(strs)
+
+
+class InstanceGen:
+    def __init__(self, mm: mmg.MetaModel, rng: random.Random):
+        self.mm = mm
+        self.rng = rng
+        ints, floats, strs = _constants_in(mm)
+        self.ints = sorted({0, 1, 2, 127, 128, 1000, 100000} | {c + d for c in ints for d in (-1, 0, 1)})
+        # floats: multiples of 1/4 only (exact in binary32 and binary64 alike)
+        self.floats = sorted({0.0, 0.25, 1.0, -1.5, 2.5} | {c + d for c in floats for d in (-0.25, 0.0, 0.25)
+                                                              if (c * 4) == int(c * 4)})
+        words = ["", "a", "ab", "abc", "abcdef", "abcdefghij", "x y", "N/A", "no", "alpha", "Zq-9",
+                 "hello-world", "ABCD", "ab-cd12", "0123456789abcdef0123"]
+        self.strs = sorted(set(words) | set(strs))
+        self.concrete: Dict[str, List[mmg.Class]] = {}
+
+    def concretes(self, name: str) -> List[mmg.Class]:
+        if name not in self.concrete:
+            c = self.mm.find_class(name)
+            out = []
+            if c is not None:
+                cands = [c] + mmg.descendants(self.mm, c)
+                out = [d for d in cands if not d.is_abstract and not d.is_implementation_specific]
+            self.concrete[name] = out
+        return self.concrete[name]
+
+    def value(self, t, depth: int):
+        rng = self.rng
+        if isinstance(t, TOpt):
+            if rng.random() < 0.35:
+                return None
+            return self.value(t.value, depth)
+        if isinstance(t, TList):
+            n = rng.choice([0, 1, 1, 2, 3]) if depth < 3 else rng.choice([0, 0, 1])
+            return [self.value(t.items, depth + 1) for _ in range(n)]
+        if isinstance(t, TPrim):
+            return self.prim(t.name)
+        if isinstance(t, TOur):
+            en = self.mm.find_enum(t.name)
+            if en is not None:
+                return {"enum": en.name, "lit": rng.choice(en.literals).name}
+            cp = self.mm.find_cprim(t.name)
+            if cp is not None:
+                return self.prim(mmg.cprim_constrainee(self.mm, t.name) or cp.constrainee)
+            cands = self.concretes(t.name)
+            if not cands:
+                raise ValueError(f"no concrete class for {t.name}")
+            return self.instance(rng.choice(cands), depth + 1)
+        raise ValueError(f"unexpected type {t}")
+
+    def prim(self, name: str):
+        rng = self.rng
+        if name == "bool":
+            return rng.random() < 0.5
+        if name == "int":
+            return rng.choice(self.ints)
+        if name == "float":
+            return {"float": rng.choice(self.floats)}
+        if name == "str":
+            return rng.choice(self.strs)
+        if name == "bytearray":
+            return {"bytes": bytes(rng.randrange(256) for _ in range(rng.choice([0, 1, 3, 8]))).hex()}
+        raise ValueError(name)
+
+    def instance(self, cls: mmg.Class, depth: int = 0) -> Dict[str, Any]:
+        if depth > 6:
+            # only optional / list properties may recurse (mmgen guarantees it): cut them
+            fields = {}
+            for p, _ in mmg.stacked_properties(self.mm, cls):
+                if isinstance(p.type, TOpt):
+                    fields[p.name] = None
+                elif isinstance(p.type, TList):
+                    fields[p.name] = []
+                else:
+                    fields[p.name] = self.value(p.type, depth)
+            return {"class": cls.name, "fields": fields}
+        fields = {}
+        for p, _ in mmg.stacked_properties(self.mm, cls):
+            fields[p.name] = self.value(p.type, depth)
+        # correlate equal-typed scalar fields now and then (a == b, s == t ... become true)
+        names = list(fields)
+        for _ in range(2):
+            if len(names) >= 2 and self.rng.random() < 0.5:
+                a, b = self.rng.sample(names, 2)
+                pa = next(p for p, _ in mmg.stacked_properties(self.mm, cls) if p.name == a)
+                pb = next(p for p, _ in mmg.stacked_properties(self.mm, cls) if p.name == b)
+                if mmg.beneath_optional(pa.type) == mmg.beneath_optional(pb.type) and fields[a] is not None \
+                        and not isinstance(fields[a], (list,)) and not (isinstance(fields[a], dict) and "class" in fields[a]):
+                    if fields[b] is not None or not isinstance(pb.type, TOpt) or True:
+                        fields[b] = json.loads(json.dumps(fields[a]))
+        return {"class": cls.name, "fields": fields}
+
+
+def gen_instances(mm: mmg.MetaModel, rng: random.Random, n: int) -> List[Dict[str, Any]]:
+    g = InstanceGen(mm, rng)
+    roots = [c for c in mm.classes if not c.is_abstract and not c.is_implementation_specific]
+    if not roots:
+        return []
+    out = []
+    for k in range(n):
+        cls = roots[k % len(roots)] if k < len(roots) else rng.choice(roots)
+        out.append(g.instance(cls))
+    return out
+
+
+def ctor_order(mm: mmg.MetaModel, cls: mmg.Class) -> List[mmg.CtorArg]:
+    ctor = mmg.ctor_of(mm, cls)
+    return list(ctor.args) if ctor is not None else []
+
+
+# ----------------------------------------------------------------------------------------
+# Java driver
+# ----------------------------------------------------------------------------------------
+def java_string(s: str) -> str:
+    out = ['"']
+    for ch in s:
+        o = ord(ch)
+        if ch == '"':
+            out.append('\\"')
+        elif ch == "\\":
+            out.append("\\\\")
+        elif 32 <= o < 127:
+            out.append(ch)
+        elif o > 0xFFFF:
+            o -= 0x10000
+            out.append("\\u%04x\\u%04x" % (0xD800 + (o >> 10), 0xDC00 + (o & 0x3FF)))
+        else:
+            out.append("\\u%04x" % o)
+    out.append('"')
+    return "".join(out)
+
+
+class JavaRender:
+    def __init__(self, mm: mmg.MetaModel, pkg: str):
+        self.mm = mm
+        self.pkg = pkg
+
+    def jtype(self, t) -> str:
+        if isinstance(t, TOpt):
+            return self.jtype(t.value)
+        if isinstance(t, TList):
+            return f"List<{self.jtype(t.items)}>"
+        if isinstance(t, TPrim):
+            return {"bool": "Boolean", "int": "Long", "float": "Float", "str": "String", "bytearray": "byte[]"}[t.name]
+        if self.mm.find_enum(t.name):
+            return cap_camel(t.name)
+        if self.mm.find_cprim(t.name):
+            return self.jtype(TPrim(mmg.cprim_constrainee(self.mm, t.name)))
+        return "I" + cap_camel(t.name)
+
+    def value(self, t, v) -> str:
+        if v is None:
+            return "null"
+        if isinstance(t, TOpt):
+            return self.value(t.value, v)
+        if isinstance(t, TList):
+            items = ", ".join(self.value(t.items, x) for x in v)
+            return f"new ArrayList<{self.jtype(t.items)}>(Arrays.asList(new {self._array_type(t.items)}[]{{{items}}}))"
+        if isinstance(t, TOur) and self.mm.find_cprim(t.name):
+            return self.value(TPrim(mmg.cprim_constrainee(self.mm, t.name)), v)
+        if isinstance(t, TPrim):
+            if t.name == "bool":
+                return "Boolean.valueOf(%s)" % ("true" if v else "false")
+            if t.name == "int":
+                return f"Long.valueOf({v}L)"
+            if t.name == "float":
+                return f"Float.valueOf({v['float']!r}f)"
+            if t.name == "str":
+                # a fresh object, as after reading the text from a document
+                return f"new String({java_string(v)})"
+            if t.name == "bytearray":
+                bs = bytes.fromhex(v["bytes"])
+                return "new byte[]{" + ", ".join(f"(byte) {b}" for b in bs) + "}"
+        if isinstance(v, dict) and "enum" in v:
+            return f"{cap_camel(v['enum'])}.{upper_snake(v['lit'])}"
+        if isinstance(v, dict) and "class" in v:
+            return self.instance(v)
+        raise ValueError(f"cannot render {v!r} as {t}")
+
+    def _array_type(self, t) -> str:
+        # generic array creation is illegal: use the raw element type
+        jt = self.jtype(t)
+        return jt.split("<")[0]
+
+    def instance(self, inst) -> str:
+        cls = self.mm.find_class(inst["class"])
+        args = []
+        props = {p.name: p for p, _ in mmg.stacked_properties(self.mm, cls)}
+        for a in ctor_order(self.mm, cls):
+            args.append(self.value(props[a.name].type, inst["fields"].get(a.name)))
+        return f"new {cap_camel(cls.name)}({', '.join(args)})"
+
+
+def render_java_main(mm: mmg.MetaModel, instances, pkg: str, with_json: bool) -> str:
+    r = JavaRender(mm, pkg)
+    L: List[str] = []
+    L.append("import java.util.*;")
+    L.append(f"import {pkg}.types.impl.*;")
+    L.append(f"import {pkg}.types.model.*;")
+    if mm.enumerations:
+        L.append(f"import {pkg}.types.enums.*;")
+    L.append(f"import {pkg}.reporting.Reporting;")
+    L.append(f"import {pkg}.verification.Verification;")
+    L.append(f"import {pkg}.stringification.Stringification;")
+    if with_json:
+        L.append(f"import {pkg}.jsonization.Jsonization;")
+    L.append("public class Main {")
+    L.append("  static String esc(String s) { StringBuilder b = new StringBuilder(); for (int i = 0; i < s.length(); i++) {"
+             " char c = s.charAt(i); if (c == '\\\\') b.append(\"\\\\\\\\\"); else if (c == '\\n') b.append(\"\\\\n\");"
+             " else if (c == '\\t') b.append(\"\\\\t\"); else if (c == '\\r') b.append(\"\\\\r\"); else b.append(c); } return b.toString(); }")
+    for i, inst in enumerate(instances):
+        L.append(f"  static IClass make{i}() {{ return {r.instance(inst)}; }}")
+    L.append("  static void run(int i, IClass that) {")
+    L.append("    try {")
+    L.append("      for (Reporting.Error e : Verification.verify(that)) {")
+    L.append("        System.out.println(\"E\\t\" + i + \"\\t\" + esc(e.getCause()) + \"\\t\" + esc(Reporting.generateJsonPath(e.getPathSegments())));")
+    L.append("      }")
+    if with_json:
+        L.append("      System.out.println(\"J\\t\" + i + \"\\t\" + esc(Jsonization.Serialize.toJsonObject(that).toString()));")
+    L.append("    } catch (RuntimeException ex) {")
+    L.append("      System.out.println(\"X\\t\" + i + \"\\t\" + esc(ex.getClass().getName() + \": \" + ex.getMessage()));")
+    L.append("    }")
+    L.append("    System.out.println(\"D\\t\" + i);")
+    L.append("  }")
+    L.append("  public static void main(String[] args) throws Exception {")
+    L.append("    java.io.PrintStream out = new java.io.PrintStream(new java.io.FileOutputStream(java.io.FileDescriptor.out), true, \"UTF-8\");")
+    L.append("    System.setOut(out);")
+    for en in mm.enumerations:
+        for lit in en.literals:
+            L.append(f"    System.out.println(\"L\\t{en.name}\\t{lit.name}\\t\" + esc(Stringification.toString("
+                     f"{cap_camel(en.name)}.{upper_snake(lit.name)}).orElse(\"<none>\")));")
+    for i in range(len(instances)):
+        L.append(f"    run({i}, make{i}());")
+    L.append("  }")
+    L.append("}")
+    return "\n".join(L) + "\n"
+
+
+def render_java_constants_main(mm: mmg.MetaModel, pkg: str) -> str:
+    """Separate program: the constants class may not compile (then only this one fails)."""
+    L = ["import java.util.*;", f"import {pkg}.constants.Constants;"]
+    if mm.enumerations:
+        L.append(f"import {pkg}.types.enums.*;")
+        L.append(f"import {pkg}.stringification.Stringification;")
+    L.append("public class MainConstants {")
+    L.append("  static String esc(String s) { StringBuilder b = new StringBuilder(); for (int i = 0; i < s.length(); i++) {"
+             " char c = s.charAt(i); if (c == '\\\\') b.append(\"\\\\\\\\\"); else if (c == '\\n') b.append(\"\\\\n\");"
+             " else if (c == '\\t') b.append(\"\\\\t\"); else if (c == '\\r') b.append(\"\\\\r\"); else b.append(c); } return b.toString(); }")
+    L.append("  public static void main(String[] args) throws Exception {")
+    L.append("    java.io.PrintStream out = new java.io.PrintStream(new java.io.FileOutputStream(java.io.FileDescriptor.out), true, \"UTF-8\");")
+    for c in mm.constants:
+        jname = low_camel(c.name)
+        if isinstance(c, mmg.ConstantPrimitive):
+            if c.kind == "bytearray":
+                continue
+            L.append(f"    out.println(\"C\\t{c.name}\\t\" + esc(String.valueOf(Constants.{jname})));")
+        else:
+            if mm.find_enum(c.items_type):
+                L.append(f"    {{ List<String> xs = new ArrayList<>(); for ({cap_camel(c.items_type)} x : Constants.{jname}) "
+                         f"xs.add(Stringification.toString(x).orElse(\"<none>\")); Collections.sort(xs); "
+                         f"out.println(\"S\\t{c.name}\\t\" + esc(String.valueOf(xs))); }}")
+            else:
+                L.append(f"    {{ List<String> xs = new ArrayList<>(); for (Object x : Constants.{jname}) "
+                         f"xs.add(String.valueOf(x)); Collections.sort(xs); out.println(\"S\\t{c.name}\\t\" + esc(String.valueOf(xs))); }}")
+    L.append("  }")
+    L.append("}")
+    return "\n".join(L) + "\n"
+
+
+# ----------------------------------------------------------------------------------------
+# C++ driver
+# ----------------------------------------------------------------------------------------
+def cpp_wstring(s: str) -> str:
+    out = ['L"']
+    prev_hex = False
+    for ch in s:
+        o = ord(ch)
+        if ch == '"':
+            out.append('\\"'); prev_hex = False
+        elif ch == "\\":
+            out.append("\\\\"); prev_hex = False
+        elif 32 <= o < 127 and ch != "?":
+            if prev_hex and ch in "0123456789abcdefABCDEF":
+                out.append('" L"')
+            out.append(ch); prev_hex = False
+        else:
+            out.append("\\x%x" % o); prev_hex = True
+    out.append('"')
+    return "".join(out)
+
+
+class CppRender:
+    def __init__(self, mm: mmg.MetaModel, ns: str):
+        self.mm = mm
+        self.ns = ns
+
+    def ctype(self, t) -> str:
+        if isinstance(t, TOpt):
+            return f"common::optional<{self.ctype(t.value)}>"
+        if isinstance(t, TList):
+            return f"std::vector<{self.ctype(t.items)}>"
+        if isinstance(t, TPrim):
+            return {"bool": "bool", "int": "int64_t", "float": "double", "str": "std::wstring",
+                    "bytearray": "std::vector<std::uint8_t>"}[t.name]
+        if self.mm.find_enum(t.name):
+            return f"types::{cap_camel(t.name)}"
+        if self.mm.find_cprim(t.name):
+            return self.ctype(TPrim(mmg.cprim_constrainee(self.mm, t.name)))
+        return f"std::shared_ptr<types::I{cap_camel(t.name)}>"
+
+    def value(self, t, v) -> str:
+        if isinstance(t, TOpt):
+            if v is None:
+                return "common::nullopt"
+            return f"common::optional<{self.ctype(t.value)}>({self.value(t.value, v)})"
+        if isinstance(t, TList):
+            items = ", ".join(self.value(t.items, x) for x in v)
+            return f"{self.ctype(t)}{{{items}}}"
+        if isinstance(t, TOur) and self.mm.find_cprim(t.name):
+            return self.value(TPrim(mmg.cprim_constrainee(self.mm, t.name)), v)
+        if isinstance(t, TPrim):
+            if t.name == "bool":
+                return "true" if v else "false"
+            if t.name == "int":
+                return f"static_cast<int64_t>({v}LL)"
+            if t.name == "float":
+                return repr(float(v["float"]))
+            if t.name == "str":
+                return f"std::wstring({cpp_wstring(v)})"
+            if t.name == "bytearray":
+                bs = bytes.fromhex(v["bytes"])
+                return "std::vector<std::uint8_t>{" + ", ".join(str(b) for b in bs) + "}"
+        if isinstance(v, dict) and "enum" in v:
+            return f"types::{cap_camel(v['enum'])}::k{cap_camel(v['lit'])}"
+        if isinstance(v, dict) and "class" in v:
+            want = self.ctype(t)
+            return f"{want}({self.instance(v)})"
+        raise ValueError(f"cannot render {v!r} as {t}")
+
+    def instance(self, inst) -> str:
+        cls = self.mm.find_class(inst["class"])
+        props = {p.name: p for p, _ in mmg.stacked_properties(self.mm, cls)}
+        args = [self.value(props[a.name].type, inst["fields"].get(a.name)) for a in ctor_order(self.mm, cls)]
+        return f"std::make_shared<types::{cap_camel(cls.name)}>({', '.join(args)})"
+
+
+def render_cpp_main(mm: mmg.MetaModel, instances, ns_path: str, with_json: bool) -> str:
+    ns = "::".join(ns_path.split("/"))
+    r = CppRender(mm, ns)
+    L: List[str] = []
+    for h in ("types", "common", "constants", "stringification", "verification", "iteration"):
+        L.append(f"#include <{ns_path}/{h}.hpp>")
+    if with_json:
+        L.append(f"#include <{ns_path}/jsonization.hpp>")
+    L += ["#include <iostream>", "#include <algorithm>", "#include <string>", "#include <vector>", "#include <cstdint>",
+          f"using namespace {ns};",
+          "static std::string esc(const std::string& s) { std::string b; for (char c : s) { if (c == '\\\\') b += \"\\\\\\\\\";"
+          " else if (c == '\\n') b += \"\\\\n\"; else if (c == '\\t') b += \"\\\\t\"; else if (c == '\\r') b += \"\\\\r\"; else b += c; } return b; }",
+          "static std::string u8(const std::wstring& w) { return esc(common::WstringToUtf8(w)); }"]
+    for i, inst in enumerate(instances):
+        L.append(f"static std::shared_ptr<types::IClass> make{i}() {{ return {r.instance(inst)}; }}")
+    L.append("static void run(int i, std::shared_ptr<types::IClass> that) {")
+    L.append("  try {")
+    L.append("    for (const verification::Error& e : verification::RecursiveVerification(that)) {")
+    L.append("      std::cout << \"E\\t\" << i << \"\\t\" << u8(e.cause) << \"\\t\" << u8(e.path.ToWstring()) << \"\\n\";")
+    L.append("    }")
+    if with_json:
+        L.append("    std::cout << \"J\\t\" << i << \"\\t\" << esc(jsonization::Serialize(*that).dump()) << \"\\n\";")
+    L.append("  } catch (const std::exception& ex) {")
+    L.append("    std::cout << \"X\\t\" << i << \"\\t\" << esc(ex.what()) << \"\\n\";")
+    L.append("  }")
+    L.append("  std::cout << \"D\\t\" << i << \"\\n\";")
+    L.append("}")
+    L.append("template <typename T> static std::string show(const T& x) { return std::to_string(x); }")
+    L.append("static std::string show(const std::wstring& x) { return u8(x); }")
+    L.append("static std::string show(const bool& x) { return x ? \"true\" : \"false\"; }")
+    L.append("int main() {")
+    for en in mm.enumerations:
+        for lit in en.literals:
+            L.append(f"  std::cout << \"L\\t{en.name}\\t{lit.name}\\t\" << esc(stringification::to_string("
+                     f"types::{cap_camel(en.name)}::k{cap_camel(lit.name)})) << \"\\n\";")
+    for c in mm.constants:
+        cname = "constants::k" + cap_camel(c.name)
+        if isinstance(c, mmg.ConstantPrimitive):
+            if c.kind == "bytearray":
+                continue
+            if c.kind == "float":
+                L.append(f"  std::cout << \"C\\t{c.name}\\t\" << (double)({cname}) << \"\\n\";")
+            else:
+                L.append(f"  std::cout << \"C\\t{c.name}\\t\" << show({cname}) << \"\\n\";")
+        else:
+            if mm.find_enum(c.items_type):
+                conv = "esc(stringification::to_string(x))"
+            elif c.items_type == "float":
+                conv = "std::to_string(x)"
+            elif c.items_type == "bytearray":
+                continue
+            else:
+                conv = "show(x)"
+            L.append(f"  {{ std::vector<std::string> xs; for (const auto& x : {cname}) xs.push_back({conv}); "
+                     f"std::sort(xs.begin(), xs.end()); std::cout << \"S\\t{c.name}\\t\"; "
+                     f"for (size_t k = 0; k < xs.size(); ++k) std::cout << (k ? \"|\" : \"\") << xs[k]; std::cout << \"\\n\"; }}")
+    for i in range(len(instances)):
+        L.append(f"  run({i}, make{i}());")
+    L.append("  return 0;")
+    L.append("}")
+    return "\n".join(L) + "\n"
